@@ -216,17 +216,19 @@ def s_range(*a):
         start, stop, step = a[0], a[1], 1
     else:
         start, stop, step = a
-    if _is_sym(step) or step != 1:
-        raise Unsupported("symbolic range with step")
+    if _is_sym(step) or step < 1:
+        raise Unsupported("symbolic range with a symbolic or non-positive step")
     n = stop - start
+    if step != 1:
+        n = (n + (step - 1)) // step
     if _b.isinstance(n, SymInt):
         if n.lo < 0:
             if ctx().decide(n.t <= 0):
                 return []
             n = SymInt(n.t, 1, n.hi)
         from .loops import SymRange
-        return SymRange(start, n)       # iterated natively: concretised / lazily forked; under a loop contract: abstract sequence
-    return [start + i for i in _b.range(_b.max(n, 0))]
+        return SymRange(start, n, step)       # iterated natively: concretised / lazily forked; under a loop contract: abstract sequence
+    return [start + i * step for i in _b.range(_b.max(n, 0))]
 
 
 def _lazy_range(start, n):
